@@ -899,6 +899,23 @@ cannot initialise file actions: %s", STRERR);
 				.mailfd = t->mfd,
 				.filefd = t->teee,
 			};
+			struct stat st;
+
+			/* data_cb moves things to .mailfd and copies them on
+			 * to .filefd from there, which takes a regular file;
+			 * with the tee on its head (R14, R15) that's the
+			 * user's file and may be anything, /dev/null say,
+			 * whereas the temporary file is regular for sure */
+			if (fstat(t->mfd, &st) < 0 || !S_ISREG(st.st_mode)) {
+				if (o.filefd >= 0) {
+					o.mailfd = t->teeo;
+					o.filefd = t->mfd;
+				}
+				if (e.filefd >= 0) {
+					e.mailfd = t->teee;
+					e.filefd = t->mfd;
+				}
+			}
 
 			assert(t->opip >= 0);
 			assert(t->epip >= 0);
